@@ -1714,7 +1714,68 @@ def check_sat(constraints, timeout_s=20.0):
   if r == z3.unsat:
     cvc5_crosscheck(s, 'unsat')
     return 'unsat', None
-  return 'unknown', s.reason_unknown()
+  reason = s.reason_unknown()
+  m = guided_model_search(cs)
+  if m is not None:
+    return 'sat', m
+  return 'unknown', reason
+
+
+FALSIFY = {'tries': 10, 'timeout_ms': 4000, 'found': 0, 'attempts': 0, 'scale': Fraction(1)}
+_CANDS = [Fraction(v) for v in (1, -1, 2, 0, 3, -2)] + [Fraction(1, 2), Fraction(-1, 2), Fraction(3, 2), Fraction(5)]
+
+
+def _free_consts(exprs):
+  seen, out, stack = set(), {}, list(exprs)
+  while stack:
+    e = stack.pop()
+    if e.get_id() in seen:
+      continue
+    seen.add(e.get_id())
+    if z3.is_const(e) and e.decl().kind() == z3.Z3_OP_UNINTERPRETED:
+      out[e.decl().name()] = e
+    else:
+      stack.extend(e.children())
+  return out
+
+
+def guided_model_search(cs):
+  """After z3 answered `unknown` (a non-linear query it neither refutes nor satisfies in time): pin the free real
+  constants to small rationals, as tracked assumptions, and let the SOLVER decide the remaining (now mostly linear)
+  query; pins that clash with the assumptions (unsat core) are released and the query retried.  A model found this way
+  is a model of the original constraints (the pins are only extra assumptions), so `sat` stays sound; failing to find one
+  leaves the verdict `unknown`."""
+  import random
+  consts = _free_consts(cs)
+  reals = [c for n, c in sorted(consts.items()) if c.sort() == z3.RealSort()]
+  if not reals:
+    return None
+  rng = random.Random(len(reals) * 7919 + len(cs))
+  for attempt in range(FALSIFY['tries']):
+    FALSIFY['attempts'] += 1
+    s = z3.Solver()
+    s.set('timeout', FALSIFY['timeout_ms'])
+    s.add(*cs)
+    pins = {}
+    for i, c in enumerate(reals):
+      v = (rng.choice(_CANDS) if attempt else _CANDS[i % len(_CANDS)]) * FALSIFY['scale']
+      lit = z3.Bool('pin!%d' % i)
+      s.add(z3.Implies(lit, c == z3.RealVal(str(v))))
+      pins[lit.decl().name()] = lit
+    active = dict(pins)
+    for _ in range(6):
+      r = s.check(*active.values())
+      if r == z3.sat:
+        FALSIFY['found'] += 1
+        return s.model()
+      if r != z3.unsat:
+        break
+      core = {c.decl().name() for c in s.unsat_core()}
+      if not core:
+        return None        # constraints unsat on their own: nothing to find
+      for n in core:
+        active.pop(n, None)
+  return None
 
 
 def prove(assumptions, goal, timeout_s=20.0):
